@@ -69,7 +69,7 @@ def rand_assign_spec(g, allow_param=False, allow_null=True):
 
 
 def lganm_spec(g, p, seeds, force_explicit=False, force_ranges=False, dtype="<f8"):
-    W = rand_dag(g, p)
+    W = rand_dag(g, p, density=(None if p <= 12 else 3.0 / p))
     spec = {"W": enc(W.astype(np.dtype(dtype)))}
     use_ranges = force_ranges or (not force_explicit and g.random() < 0.4)
     if use_ranges:
@@ -90,7 +90,7 @@ def nd_spec(g, p):
 
 
 def anm_spec(g, p, allow_param=False):
-    W = rand_dag(g, p, weighted=False)
+    W = rand_dag(g, p, weighted=False, density=(None if p <= 12 else 3.0 / p))
     return {"A": enc(W), "assign": [rand_assign_spec(g, allow_param) for _ in range(p)],
             "noise": [rand_noise_spec(g) for _ in range(p)]}
 
